@@ -607,6 +607,10 @@ func (r *Reader) refsForIndexed(oid []byte) (*Iterator, error) {
 	if err != nil {
 		return nil, err
 	}
+	if it == nil {
+		// The prefix sorts after every object in the table.
+		return &Iterator{&emptyIterator{}}, nil
+	}
 
 	got := objRecord{}
 	ok, err := it.Next(&got)
